@@ -103,10 +103,12 @@ RoView(cs, fsys) ==
   IF ~cs.ro.byPath THEN cs.ro
   ELSE IF ~Exists(fsys, cs.ro.path) \/ Node(fsys, cs.ro.path).kind # "file" THEN [cs.ro EXCEPT !.undef = TRUE]
   ELSE [cs.ro EXCEPT !.cid = Node(fsys, cs.ro.path).vcid, !.size = Node(fsys, cs.ro.path).vsize]
-NoWo == [open |-> FALSE, path |-> << >>]
+NoWo == [open |-> FALSE, path |-> << >>, off |-> PZero]
 InitCs == [dir |-> NoDir, ro |-> NoFile, sect |-> 0, wo |-> NoWo]
 
-Outcome(cs, fsys, resp, close) == [cs |-> cs, fs |-> fsys, resp |-> resp, close |-> close]
+Outcome(cs, fsys, resp, close) == [cs |-> cs, fs |-> fsys, resp |-> resp, close |-> close, wild |-> {}]
+(* wild: paths of files whose content after the step is unspecified          *)
+OutcomeWild(cs, fsys, resp, close, wild) == [cs |-> cs, fs |-> fsys, resp |-> resp, close |-> close, wild |-> wild]
 
 Res4(v) == [k |-> "Res4", v |-> v]
 RNone == [k |-> "None"]
@@ -334,6 +336,10 @@ NewFile(p) == [p |-> p, kind |-> "file", size |-> PZero, cid |-> "", vcid |-> ""
 NewDir(p) == [p |-> p, kind |-> "dir", size |-> PZero, cid |-> "", vcid |-> "", vsize |-> PZero,
               mtime |-> 0, ctime |-> 0, target |-> << >>, marks |-> << >>]
 
+(* names no object can have (NUL inside, longer than 255 bytes): the harness *)
+(* lists those segments of the request's path in req.bad                    *)
+BadName(req, name) == \E i \in DOMAIN req.bad : req.bad[i] = name
+
 (* a change inside a directory that some listing cursor is walking makes    *)
 (* the rest of that listing unspecified                                     *)
 Staled(cs, d) == IF cs.dir.open /\ cs.dir.path = d THEN [cs EXCEPT !.dir.undef = TRUE] ELSE cs
@@ -347,18 +353,21 @@ HandleCreate(cs, fsys, req, aw) ==
   LET p == Norm(req.path)
       cs0 == [cs EXCEPT !.wo = NoWo]
   IN IF ~aw THEN { Outcome(cs, fsys, Res4(-1), FALSE) }
-     ELSE IF VirtualKind(p) # "generic" THEN { Outcome(cs0, fsys, Res4(-1), FALSE) }
+     ELSE IF VirtualKind(p) # "generic"
+          THEN \* refused - unless a literal directory of that very name exists (then the no-op "close" of a directory path)
+               { Outcome(cs0, fsys, Res4(-1), FALSE) }
+               \cup (IF IsDirAt(fsys, Resolve(fsys, p)) THEN { Outcome(cs0, fsys, Res4(0), FALSE) } ELSE {})
      ELSE LET t == Resolve(fsys, p) IN
           IF t # NoPath
           THEN IF Node(fsys, t).kind = "dir"
                THEN { Outcome(cs0, fsys, Res4(0), FALSE), Outcome(cs0, fsys, Res4(-1), FALSE) }
                ELSE LET n == Node(fsys, t)
                         n2 == [n EXCEPT !.size = PZero, !.cid = "", !.vcid = "", !.vsize = PZero, !.marks = << >>]
-                    IN { Outcome([cs0 EXCEPT !.wo = [open |-> TRUE, path |-> t]], (fsys \ {n}) \cup {n2}, Res4(0), FALSE) }
+                    IN { Outcome([cs0 EXCEPT !.wo = [open |-> TRUE, path |-> t, off |-> PZero]], (fsys \ {n}) \cup {n2}, Res4(0), FALSE) }
           ELSE LET q == FinalTarget(fsys, p, 4) IN      \* O_CREAT follows a dangling link to its target
-               IF q = NoPath
+               IF q = NoPath \/ BadName(req, Base(q))
                THEN { Outcome(cs0, fsys, Res4(-1), FALSE) }
-               ELSE { Outcome(Staled([cs0 EXCEPT !.wo = [open |-> TRUE, path |-> q]], Parent(q)),
+               ELSE { Outcome(Staled([cs0 EXCEPT !.wo = [open |-> TRUE, path |-> q, off |-> PZero]], Parent(q)),
                               fsys \cup {NewFile(q)}, Res4(0), FALSE) }
 
 (***************************************************************************)
@@ -368,12 +377,18 @@ HandleCreate(cs, fsys, req, aw) ==
 CatCid(a, b) == IF a = "" THEN b ELSE a \o "+" \o b
 HandleWrite(cs, fsys, req, aw) ==
   IF ~aw \/ ~cs.wo.open THEN { Outcome(cs, fsys, Res4(-1), FALSE) }
-  ELSE IF ~Exists(fsys, cs.wo.path)     \* file removed while open: data goes to the unlinked inode
-       THEN { Outcome(cs, fsys, Res4(req.plen), FALSE) }
-  ELSE LET n == Node(fsys, cs.wo.path)
-           c2 == IF req.plen = 0 THEN n.cid ELSE CatCid(n.cid, req.chunk)
-           n2 == [n EXCEPT !.size = PAdd(@, P(req.plen)), !.cid = c2, !.vcid = c2, !.vsize = PAdd(n.size, P(req.plen)), !.marks = << >>]
-       IN { Outcome(cs, (fsys \ {n}) \cup {n2}, Res4(req.plen), FALSE) }
+  ELSE LET cs2 == [cs EXCEPT !.wo.off = PAdd(@, P(req.plen))] IN
+       IF ~Exists(fsys, cs.wo.path)     \* file removed while open: data goes to the unlinked inode
+       THEN { Outcome(cs2, fsys, Res4(req.plen), FALSE) }
+       ELSE LET n == Node(fsys, cs.wo.path) IN
+            IF n.kind # "file" \/ n.size # cs.wo.off
+            THEN \* somebody else re-created or wrote the same file meanwhile (or the name now denotes another
+                 \* object): two writers on one file - the resulting content is unspecified
+                 { OutcomeWild(cs2, fsys, Res4(req.plen), FALSE, {cs.wo.path}) }
+            ELSE LET c2 == IF req.plen = 0 THEN n.cid ELSE CatCid(n.cid, req.chunk)
+                     sz == PAdd(n.size, P(req.plen))
+                     n2 == [n EXCEPT !.size = sz, !.cid = c2, !.vcid = c2, !.vsize = sz, !.marks = << >>]
+                 IN { Outcome(cs2, (fsys \ {n}) \cup {n2}, Res4(req.plen), FALSE) }
 
 (***************************************************************************)
 (* DELETE_FILE / RMDIR (both are Fs.Remove) and MKDIR.                      *)
@@ -399,7 +414,7 @@ HandleMkdir(cs, fsys, req, aw) ==
   LET p == Norm(req.path) IN
   IF ~aw THEN { Outcome(cs, fsys, Res4(-1), FALSE) }
   ELSE LET d == ResolveParent(fsys, p) IN
-       IF p = << >> \/ ~IsDirAt(fsys, d) \/ Exists(fsys, Append(d, Base(p)))
+       IF p = << >> \/ ~IsDirAt(fsys, d) \/ Exists(fsys, Append(d, Base(p))) \/ BadName(req, Base(p))
        THEN { Outcome(cs, fsys, Res4(-1), FALSE) }
        ELSE { Outcome(Staled(cs, d), fsys \cup {NewDir(Append(d, Base(p)))}, Res4(0), FALSE) }
 
